@@ -7,8 +7,12 @@ import time
 
 from . import env
 
-EVIDENCE_DIR = os.path.join(env.VERIF_ROOT, 'evidence')
-REPLAY_DIR = os.path.join(env.VERIF_ROOT, 'replays')
+# (mutant self-tests redirect both so that they never overwrite the evidence
+# of the real tree)
+EVIDENCE_DIR = os.environ.get('VERIF_EVIDENCE_DIR') or os.path.join(
+    env.VERIF_ROOT, 'evidence')
+REPLAY_DIR = os.environ.get('VERIF_REPLAY_DIR') or os.path.join(
+    env.VERIF_ROOT, 'replays')
 KNOWN_FILE = os.path.join(env.VERIF_ROOT, 'known_findings.json')
 
 COMPONENTS = dict(
